@@ -56,6 +56,15 @@ func nodeByID(nl *sbom.NodeList, id string) *sbom.Node {
 
 var nodeIdentityFields = map[protoreflect.Name]bool{"id": true, "type": true}
 
+// zeroTimestamp: the field is a set google.protobuf.Timestamp without seconds and nanoseconds.
+func zeroTimestamp(m protoreflect.Message, fd protoreflect.FieldDescriptor) bool {
+	if fd.Message() == nil || fd.IsList() || fd.IsMap() || fd.Message().FullName() != "google.protobuf.Timestamp" || !m.Has(fd) {
+		return false
+	}
+	ts := m.Get(fd).Message()
+	return ts.Get(ts.Descriptor().Fields().ByName("seconds")).Int() == 0 && ts.Get(ts.Descriptor().Fields().ByName("nanos")).Int() == 0
+}
+
 // checkPrecedence verifies, per attribute, result = winner's value if non-empty else loser's.
 func checkPrecedence(t fataler, what string, res, winner, loser *sbom.Node) {
 	fds := res.ProtoReflect().Descriptor().Fields()
@@ -64,12 +73,19 @@ func checkPrecedence(t fataler, what string, res, winner, loser *sbom.Node) {
 		if nodeIdentityFields[fd.Name()] {
 			continue
 		}
-		want := hx.RefFieldKey(winner.ProtoReflect(), fd, false)
+		// list-valued attributes are compared as sets (whether a merge keeps repeated members is not stated)
+		want := hx.RefSetKey(winner.ProtoReflect(), fd, false)
 		if hx.FieldEmpty(winner.ProtoReflect(), fd) {
-			want = hx.RefFieldKey(loser.ProtoReflect(), fd, false)
+			want = hx.RefSetKey(loser.ProtoReflect(), fd, false)
 		}
-		got := hx.RefFieldKey(res.ProtoReflect(), fd, false)
+		got := hx.RefSetKey(res.ProtoReflect(), fd, false)
 		if got != want {
+			// a date that is present but all-zero (the Unix epoch) may or may not count as "non-empty": then either
+			// operand's value is admissible
+			if zeroTimestamp(winner.ProtoReflect(), fd) && got == hx.RefSetKey(loser.ProtoReflect(), fd, false) {
+				hx.Class("precedence:zero_timestamp_read_as_empty")
+				continue
+			}
 			t.Fatalf("%s: node %q attribute %s = %s, want %s (winner %s, other %s)", what, res.Id, fd.Name(), got, want,
 				hx.RefFieldKey(winner.ProtoReflect(), fd, false), hx.RefFieldKey(loser.ProtoReflect(), fd, false))
 		}
